@@ -1,9 +1,9 @@
 """C14 — query replies; shared connection lists."""
 import vlib, simgen, oracles
-from props import opseq, simprops
+from props import opseq, simprops, bsprops
 
 HARNESS = ("atomh", "simh")
-TRUSTED = ["BroadcastFuture's two-phase poll loop and TaskSet (util/task_set.rs) are NOT modelled: arbitrary completion orders and wake-ups of the per-replier sub-sends are exercised through capacity-1 replier mailboxes on 1..16 threads and must yield the model's replies; spurious wake-ups are not injected",
+TRUSTED = ["Broadcast.v models QueryBroadcaster::broadcast / BroadcasterInner::futures / BroadcastFuture::{new,poll,drop} / the lazily consumed reply iterator over an ABSTRACT task set (scheduled list, iterator being consumed, notification countdown) and wake sink (one registered waker consumed by a notification), driven sequentially: completions, failures and spurious wake-ups arrive between polls and - through scripts - inside the polls of other sub-futures; it is tied to the code by running the verbatim broadcaster.rs with the real util/task_set.rs and diatomic-waker on the same scripted scenarios (harness/atomh bscen.rs); the lock-free implementation of TaskSet under truly concurrent wake-ups is NOT modelled (exercised by the simh benches on 1..16 threads only)",
            "multishot / diatomic_waker trusted",
            "connect() on one clone concurrently with send() on another is covered by the CachedRw theorems (sequential interleaving of whole operations) and by op sequences on the verbatim cached_rw_lock.rs; the bench DSL connects all ports before the simulation starts"]
 ASSUMPTIONS = []
@@ -46,6 +46,7 @@ def tie(rep, tier, rng, model_ok):
     crw = opseq.load_corpus("C14") + gen_crw(rng, 2000 if q else 40000)
     opseq.check(rep, "cached-rw-lock", crw, vlib.ATOMH, ["seq"], crw_ref, lambda l: l.count("w,") >= 1 and l.count("c,") >= 1, model_ok, 1,
                 rule="op sequences (clone / write / write_scratchpad / read over up to 5 clones) on the verbatim cached_rw_lock.rs vs CachedRw.v")
+    bsprops.run(rep, "broadcast-scenarios", rng, 3000 if q else 80000, model_ok)
     a = [simgen.gen_query(rng) for _ in range(400 if q else 10000)]
     b = [simgen.gen_net(rng) for _ in range(150 if q else 4000)]
     simprops.run(rep, "C14", model_ok,
